@@ -1632,14 +1632,13 @@ fn run_graph(plan: &Planned, m: &mut Model, rep: &mut Report, r: &mut Rng, budge
                     do_astar(&mut c, s, t, &costs_in, Direction::Incoming);
                     do_astar(&mut c, s, t, &costs_both, Direction::Both);
                 }
-                // find_all_weighted_paths does not terminate (unbounded memory) when a zero-weight
-                // cycle or self-loop lies on a minimum-weight route (equal-cost parents form a cycle
-                // that enumerate_weighted_paths follows forever; reproduce with
-                // `corr_paths --probe-awp-zero-loop` under `timeout`/`ulimit -v`), so it is only
-                // exercised on graphs without zero-weight edges.
-                if has_zero && !budget.awp_zero_ok {
-                    c.rep.hit("allwpaths.skipped_zero_weight_graph");
-                } else if g.nodes.len() <= 12 || r.chance(1, 3) {
+                // find_all_weighted_paths on every graph, zero-weight edges / cycles / self-loops included
+                // (before aa940b8b it did not terminate when a zero-weight cycle lay on a minimum-weight
+                // route; tpl-zero-cycle and tpl-zero-selfloop are the directed regression cases)
+                if has_zero {
+                    c.rep.hit("allwpaths.zero_weight_graph");
+                }
+                if g.nodes.len() <= 12 || r.chance(1, 3) {
                     do_all_weighted(&mut c, s, t, &costs);
                 }
             }
@@ -1690,9 +1689,6 @@ fn run_graph(plan: &Planned, m: &mut Model, rep: &mut Report, r: &mut Rng, budge
 }
 
 struct Budget {
-    /// `--awp-zero-ok`: also run find_all_weighted_paths on graphs with zero-weight edges
-    /// (only once proposed/C18-all-weighted-paths-zero-cycle.diff is applied; it hangs otherwise)
-    awp_zero_ok: bool,
     filters: usize,
     filter_pair_num: u64,
     var_small: usize,
@@ -1722,6 +1718,10 @@ fn templates() -> Vec<Planned> {
         mk(2, vec![e(0, 1, true, Some(9)), e(0, 1, true, Some(1)), e(1, 0, false, Some(4)), e(1, 0, false, Some(7))], "tpl-parallel"),
         // zero-weight cycle and self loops
         mk(3, vec![e(0, 1, true, Some(0)), e(1, 0, true, Some(0)), e(1, 1, true, Some(0)), e(1, 2, false, Some(0)), e(2, 2, false, Some(5))], "tpl-zero-cycle"),
+        // 1 -> 2 (weight 0) plus a zero-weight self-loop on 2: find_all_weighted_paths(1, 2) used to run forever
+        mk(2, vec![e(0, 1, true, Some(0)), e(1, 1, true, Some(0))], "tpl-zero-selfloop"),
+        // one directed edge 1->2 weight 3 queried backwards with Direction::Both; parallel 9 / 1 (A* regression)
+        mk(3, vec![e(0, 1, true, Some(3)), e(0, 2, true, Some(9)), e(0, 2, true, Some(1))], "tpl-astar-edge-choice"),
         // triangle with a pendant on the smallest id (degree order != id order)
         mk(4, vec![e(0, 1, false, None), e(1, 2, false, None), e(0, 2, false, None), e(0, 3, false, None)], "tpl-triangle-pendant"),
     ]
@@ -1786,26 +1786,12 @@ fn main() {
     .iter()
     .map(|s| s.to_string())
     .collect();
-    if args.extra.iter().any(|a| a == "--probe-awp-zero-loop") {
-        // 1 -> 2 (weight 0) plus a zero-weight self-loop on 2: find_all_weighted_paths(1, 2) never returns
-        let eng = GraphEngine::new();
-        let a = eng.create_node("N", HashMap::new()).unwrap();
-        let b = eng.create_node("N", HashMap::new()).unwrap();
-        let w0 = || HashMap::from([("w".to_string(), PropertyValue::Int(0))]);
-        eng.create_edge(a, b, "t", w0(), true).unwrap();
-        eng.create_edge(b, b, "t", w0(), true).unwrap();
-        eprintln!("calling find_all_weighted_paths({a}, {b}, \"w\") ...");
-        let r = eng.find_all_weighted_paths(a, b, "w", None);
-        eprintln!("returned: {:?}", r.map(|x| x.paths.len()));
-        return;
-    }
     let mut m = Model::spawn(&args.driver);
     let root = Rng::new(args.seed);
-    let awp_zero_ok = args.extra.iter().any(|a| a == "--awp-zero-ok");
     let budget = if args.thorough {
-        Budget { awp_zero_ok, filters: 3, filter_pair_num: 8, var_small: 60, var_large: 25 }
+        Budget { filters: 3, filter_pair_num: 8, var_small: 60, var_large: 25 }
     } else {
-        Budget { awp_zero_ok, filters: 2, filter_pair_num: 4, var_small: 30, var_large: 10 }
+        Budget { filters: 2, filter_pair_num: 4, var_small: 30, var_large: 10 }
     };
 
     // templates first
